@@ -85,15 +85,15 @@ def write_search_cases(path, seed, tier):
     ties) and path-explosive families, for the BFS searches and Dijkstra."""
     rng = random.Random(seed)
     out = []
-    nrand = 60 if tier == "quick" else 1500
+    nrand = 250 if tier == "quick" else 3000
     for k in range(nrand):
-        n = rng.randint(5, 9 if tier == "quick" else 12)
+        n = rng.randint(5, 12 if tier == "quick" else 16)
         directed = rng.random() < 0.5
         p = rng.choice([0.1, 0.2, 0.35, 0.6])
         e = random_graph(rng, n, p, directed)
         out.append({"k": "search", "dir": directed, "g": enc_graph(n, e, directed), "paths": n <= 9,
                     "sources": sorted(rng.sample(range(n), min(n, 3)))})
-        w = {x: rng.choice([0, 0, 1, 1, 2, 3, 5]) for x in e}
+        w = {x: rng.choice([0, 0, 1, 1, 2, 3, 5]) if k % 3 else rng.randint(0, 40) for x in e}
         out.append({"k": "dijkstra", "dir": directed, "g": enc_graph(n, e, directed, w),
                     "sources": sorted(rng.sample(range(n), min(n, 3)))})
     # exponentially many shortest paths: scans must stay within V+E (C19); paths are not
